@@ -260,7 +260,9 @@ class HyperbandOracle(oracle_module.Oracle):
         bracket_num = bracket["bracket_num"]
         rounds = bracket["rounds"]
         values = self._random_values()
-        if values:
+        # `{}` is a valid sample: the search space may be empty until the first
+        # trial declares its hyperparameters.
+        if values is not None:
             values["tuner/epochs"] = self._get_epochs(bracket_num, 0)
             values["tuner/initial_epoch"] = 0
             values["tuner/bracket"] = bracket_num
